@@ -1,5 +1,8 @@
 """C07 - mandatory acknowledgements are sent exactly once and match the stanza.
 
+C07.stack        the compositions the library publishes / builds hold every answering layer once (a duplicated layer
+                 in a parallel group answers twice)
+
 C07.notif        every notification cell gets exactly one ack (control layer for consumed encrypt notifications,
                  notifications layer otherwise) whose id / class / type / to / participant come from the notification
 C07.call         offer -> one receipt naming the call id, other call stanzas -> one ack; one delivery
@@ -202,7 +205,7 @@ def rule_unsupported(ctx, repo, tier):
         n_unsup = 0
         for cell, rs in res:
             view = cell_view(cell)
-            if excluded("message", view, routing) or rs["raised"] or not view.get("<proto>"):
+            if excluded("message", view, routing) or not view.get("<proto>"):
                 continue
             lab = cell_label(cell)
             rcpts = [node_of(e) for e in flat_effects(rs["effects"]) if e[0] == "DOWN"]
@@ -220,6 +223,10 @@ def rule_unsupported(ctx, repo, tier):
             if skdm_only:
                 continue        # pure key-distribution payloads are outside the statement's quantifier
             want = 0 if supported else 1
+            if rs["raised"]:
+                if want == 1:
+                    bad.setdefault("handling raises (%s) instead of answering with the receipt" % rs["raised"][:70], []).append(lab)
+                continue
             if len(rcpts) != want:
                 bad.setdefault("%d receipt(s) where %d expected" % (len(rcpts), want), []).append(lab)
                 continue
@@ -247,7 +254,11 @@ def run(ctx):
     ctx.rule("C07.unsupported", "unsupported payload -> exactly one receipt", floor=2)
     ctx.assume("the documented exclusion: a picture notification that is neither set nor delete raises by design")
     repo = ctx.repo
-    rule_notif(ctx, repo, ctx.tier)
-    rule_call(ctx, repo)
-    rule_ping(ctx, repo)
-    rule_unsupported(ctx, repo, ctx.tier)
+    from .c18 import rule_composition
+    ctx.rule("C07.stack", "no composition the library publishes or builds holds an answering layer twice", floor=1)
+    if not rule_composition(ctx, "C07.stack"):
+        return
+    ctx.guarded("C07.notif", rule_notif, ctx, repo, ctx.tier)
+    ctx.guarded("C07.call", rule_call, ctx, repo)
+    ctx.guarded("C07.ping", rule_ping, ctx, repo)
+    ctx.guarded("C07.unsupported", rule_unsupported, ctx, repo, ctx.tier)
